@@ -431,6 +431,9 @@ func envLookup(fr *frame, name string) (value, value) {
 			pair := v.([2]value)
 			return pair[0], pair[1]
 		}
+		if explicit, _ := fr.p.hostState["env-explicit"].(bool); explicit {
+			return "", false
+		}
 		set := fr.p.newInput("envset:"+name, SBool, nil, nil)
 		// value: one of a few representative strings chosen symbolically
 		choices := []string{"", "1", "true", "0"}
